@@ -21,6 +21,7 @@ const FLAGS: Flags = Flags {
     framing: false,
     flush: false,
     help_on: true,
+    complete: false,
 };
 
 pub fn check() -> Check {
